@@ -28,6 +28,10 @@ static int shape_build(const char *name, int vk, tmat_t *T) {
         const char *p = name + 7; n = (int)strlen(p); if (n > NMAX) return 0;
         for (int j = 0; j < n; j++) { pat[j][j] = 1; int par = (p[j] >= '0' && p[j] <= '9') ? p[j] - '0' : (p[j] >= 'a' && p[j] <= 'c') ? 10 + p[j] - 'a' : n; if (par < n && par > j) pat[j][par] = 1; }
     }
+    else if (!strncmp(name, "sforest:", 8)) {         /* symmetric pattern of the same forest: L has structure, supernodes can join */
+        const char *p = name + 8; n = (int)strlen(p); if (n > NMAX) return 0;
+        for (int j = 0; j < n; j++) { pat[j][j] = 1; int par = (p[j] >= '0' && p[j] <= '9') ? p[j] - '0' : n; if (par < n && par > j) pat[j][par] = pat[par][j] = 1; }
+    }
     else if (!strncmp(name, "pat:", 4)) {             /* pat:<n>:<row-major 0/1 string> */
         const char *p = name + 4; n = atoi(p); p = strchr(p, ':'); if (!p || n > NMAX) return 0; p++;
         if ((int)strlen(p) < n * n) return 0;
